@@ -77,6 +77,10 @@ def docs(label="b"):
     d["jsonld-two"] = ("json-ld", json.dumps([{"@id": "_:" + L, P: {"@id": O}}, {"@id": "_:" + L, Q: {"@id": O}}]), two, False)
     d["jsonld-across"] = ("json-ld", json.dumps([{"@id": G1, "@graph": [{"@id": "_:" + L, P: {"@id": O}}]},
                                                  {"@id": G2, "@graph": [{"@id": "_:" + L, Q: {"@id": O}}]}]), across, True)
+    # the document handed over as an already decoded object (the SAME object at every parse of a history): with and without a context
+    d["jsonld-object"] = ("json-ld-object", json.dumps({"@id": "_:" + L, P: {"@id": O}}), one, False)
+    d["jsonld-object-context"] = ("json-ld-object", json.dumps({"@context": {"pp": {"@id": P, "@type": "@id"}, "e": EX}, "@id": "_:" + L, "pp": "e:o"}), one, False)
+    d["jsonld-object-graph"] = ("json-ld-object", json.dumps({"@context": {"e": EX}, "@graph": [{"@id": "_:" + L, "e:p": {"@id": "e:o"}}, {"@id": "_:" + L, "e:q": {"@id": "e:o"}}]}), two, False)
     # anonymous blank nodes (no label at all): [ ] in the Turtle family, a node element without rdf:nodeID, a node object without @id
     d["ttl-anon"] = ("turtle", "@prefix : <%s> .\n[ :p :o ] .\n" % EX, one, False)
     d["ttl-anon-two"] = ("turtle", "@prefix : <%s> .\n[ :p :o ; :q :o ] .\n" % EX, two, False)
@@ -139,6 +143,7 @@ def run_history(target, prestate, names, horizon=10.0):
     seams.reset_bnode_counter()
     t = make_target(target, prestate)
     steps = 0
+    objects = {}
     for idx, name in enumerate(names):
         before = rows(t)
         label = "b"
@@ -155,11 +160,15 @@ def run_history(target, prestate, names, horizon=10.0):
         if quad_only and target == "graph":
             continue
         steps += 1
-        cls = "%s|%s" % (fmt, "label-collides-with-existing-node-or-earlier-document" if (dyn or idx > 0 or ("B", "b") in bnodes_of(before))
+        cls = "%s|%s" % ("json-ld" if fmt == "json-ld-object" else fmt, "label-collides-with-existing-node-or-earlier-document" if (dyn or idx > 0 or ("B", "b") in bnodes_of(before))
                          else "first-document")
         try:
             with seams.watchdog(horizon):
-                (t.graph(URIRef(H)) if target.startswith("named") else t).parse(data=text, format=fmt)
+                if fmt == "json-ld-object":
+                    data = objects.setdefault((name, label), json.loads(text))
+                    (t.graph(URIRef(H)) if target.startswith("named") else t).parse(data=data, format="json-ld")
+                else:
+                    (t.graph(URIRef(H)) if target.startswith("named") else t).parse(data=text, format=fmt)
         except Exception as e:  # noqa: BLE001
             return (("%s|parse-raises|%s" % (cls, type(e).__name__), {"exc": repr(e)[:300], "document": text}), steps)
         after = rows(t)
@@ -203,6 +212,8 @@ def _batch(hists):
 def fresh_pair_check(name):
     fmt, text, exp, quad_only = docs()[name]
     a, b = Dataset(), Dataset()
+    if fmt == "json-ld-object":
+        text, fmt = json.loads(text), "json-ld"  # one object, parsed twice
     a.parse(data=text, format=fmt)
     b.parse(data=text, format=fmt)
     if not iso(rows(a), rows(b)):
